@@ -370,3 +370,114 @@ package geometry
 //@   call 0 use storeFold(seen, ring, point, $idx, sNseg(ring))
 //@   call 0 after use foldAll(seen, ring, point, sNseg(ring))
 //@   ret use onAnyWitness(ring, point, idx, sNseg(ring))
+
+//@ func ringContainsPointGeneric
+//@   props C01
+//@   free rect
+//@   entry use parSeenEmpty(ring, point, sNseg(ring))
+//@   requires SeriesInv(ring) && seriesInDomSeg(ring) && rect == strip(point)
+//@   ensures Hit: onAny(ring, point, sNseg(ring)) ==> (result0 == allowOnEdge && 0 <= result1 && result1 < sNseg(ring) && segOn(ring, result1, point))
+//@   ensures Miss: !onAny(ring, point, sNseg(ring)) ==> (result0 == par(ring, point, sNseg(ring)) && result1 == -1)
+//@   call 0 iterinv idx == -1 && in == parSeen(seen, ring, point, sNseg(ring)) && (forall j int :: seen[j] ==> !segOn(ring, j, point))
+//@   call 0 iterstop 0 <= idx && idx < sNseg(ring) && segOn(ring, idx, point) && in == allowOnEdge
+//@   call 0 use storeFold(seen, ring, point, $idx, sNseg(ring))
+//@   call 0 after use foldAll(seen, ring, point, sNseg(ring))
+//@   ret use onAnyWitness(ring, point, idx, sNseg(ring))
+
+//@ spec func rectHas(r Rect, p Point) bool { p.X >= r.Min.X && p.X <= r.Max.X && p.Y >= r.Min.Y && p.Y <= r.Max.Y }
+//@ func Rect.ContainsPoint
+//@   props C01 C03
+//@   arith order
+//@   ensures result == rectHas(rect, point)
+//@ func Rect.IntersectsPoint
+//@   props C01 C02
+//@   arith order
+//@   ensures result == rectHas(rect, point)
+
+//@ func Series.Rect
+//@   props C01 C11
+//@   requires SeriesInv(self)
+//@   ensures result == sRect(self)
+//@ func baseSeries.Rect
+//@   props C01 C11
+//@   arith order
+//@   requires series != nil
+//@   ensures result == series.rect
+//@ func Rect.Rect
+//@   props C01 C11
+//@   arith order
+//@   ensures result == rect
+
+// ring invariant: a closed series whose stored rectangle covers all its points (established by the constructors)
+//@ spec func endOf(s Series, k int) Point { ite(k <= 0, sSeg(s,0).A, sSeg(s,k-1).B) }
+//@ spec func RingInv(s Series) bool {
+//@     SeriesInv(s) && sClosed(s) && seriesInDomSeg(s) &&
+//@     (forall j int :: 0 <= j && j < sNseg(s) ==> rectHas(sRect(s), sSeg(s,j).A) && rectHas(sRect(s), sSeg(s,j).B)) }
+
+// consecutive segments share their endpoint, and a closed series ends where it starts
+//@ lemma chain(s Series, i int)
+//@   props C01
+//@   requires SeriesInv(s) && 1 <= i && i < sNseg(s)
+//@   ensures sSeg(s,i).A == sSeg(s,i-1).B
+//@ lemma closure(s Series)
+//@   props C01
+//@   requires SeriesInv(s) && sClosed(s) && sNseg(s) > 0
+//@   ensures sSeg(s, sNseg(s)-1).B == sSeg(s,0).A
+
+// a point on a segment lies in that segment's bounding box
+//@ lemma onInBox(a Point, b Point, p Point, r Rect)
+//@   props C01
+//@   requires onSeg(a,b,p) && rectHas(r,a) && rectHas(r,b)
+//@   ensures rectHas(r,p)
+//@ lemma notOnOutside(s Series, p Point, k int)
+//@   props C01
+//@   requires RingInv(s) && !rectHas(sRect(s), p) && k <= sNseg(s)
+//@   ensures !onAny(s,p,k)
+//@   induction k
+//@   use onInBox(sSeg(s,k-1).A, sSeg(s,k-1).B, p, sRect(s))
+//@   have In: rectHas(sRect(s), sSeg(s,k-1).A) && rectHas(sRect(s), sSeg(s,k-1).B)
+
+// crossing facts for a point outside the box of a segment
+//@ spec func below(v Point, p Point) bool { v.Y <= p.Y }
+//@ lemma farNoCross(a Point, b Point, p Point, r Rect)
+//@   props C01
+//@   requires rectHas(r,a) && rectHas(r,b) && (p.Y < r.Min.Y || p.Y > r.Max.Y || p.X > r.Max.X)
+//@   ensures !rayIn(a,b,p)
+//@ lemma leftCross(a Point, b Point, p Point, r Rect)
+//@   props C01
+//@   requires rectHas(r,a) && rectHas(r,b) && p.X < r.Min.X
+//@   ensures rayIn(a,b,p) == (below(a,p) != below(b,p))
+
+// far side: no crossing at all; left side: parity of crossings = (first vertex below) xor (current vertex below)
+//@ lemma parFar(s Series, p Point, k int)
+//@   props C01
+//@   requires RingInv(s) && (p.Y < sRect(s).Min.Y || p.Y > sRect(s).Max.Y || p.X > sRect(s).Max.X) && k <= sNseg(s)
+//@   ensures !par(s,p,k)
+//@   induction k
+//@   use farNoCross(sSeg(s,k-1).A, sSeg(s,k-1).B, p, sRect(s))
+//@   have In: rectHas(sRect(s), sSeg(s,k-1).A) && rectHas(sRect(s), sSeg(s,k-1).B)
+//@ lemma parLeft(s Series, p Point, k int)
+//@   props C01
+//@   requires RingInv(s) && p.X < sRect(s).Min.X && 0 <= k && k <= sNseg(s)
+//@   ensures par(s,p,k) == (below(sSeg(s,0).A, p) != below(endOf(s,k), p))
+//@   induction k
+//@   use leftCross(sSeg(s,k-1).A, sSeg(s,k-1).B, p, sRect(s))
+//@   use chain(s, k-1)
+//@   have In: rectHas(sRect(s), sSeg(s,k-1).A) && rectHas(sRect(s), sSeg(s,k-1).B)
+// ... hence a point outside the ring's rectangle is on no segment and has even crossing parity
+//@ lemma outsideBox(s Series, p Point)
+//@   props C01
+//@   requires RingInv(s) && !rectHas(sRect(s), p)
+//@   ensures !onAny(s,p,sNseg(s)) && !par(s,p,sNseg(s))
+//@   use notOnOutside(s,p,sNseg(s))
+//@   use parFar(s,p,sNseg(s))
+//@   use parLeft(s,p,sNseg(s))
+//@   use closure(s)
+
+//@ func ringContainsPoint
+//@   props C01
+//@   requires RingInv(ring)
+//@   ensures Hit: result.hit == ite(allowOnEdge, pipClosed(ring, point), pipOpen(ring, point))
+//@   ensures Idx: (result.idx != -1) == onAny(ring, point, sNseg(ring))
+//@   ensures IdxOn: result.idx != -1 ==> (0 <= result.idx && result.idx < sNseg(ring) && segOn(ring, result.idx, point))
+//@   ret use outsideBox(ring, point)
